@@ -206,6 +206,14 @@ def d23():  # C06: a warning comment with other braces than {n}
     return writer.write(Library([ParsingFailedBlock(ValueError(), raw="@x{")]), f) == "% failed {block}\n@x{\n"
 
 
+def d24():  # C14: a name containing the bare word `and` survives merge + split
+    from bibtexparser.middlewares.names import parse_single_name_into_parts as pn, split_multiple_persons_names as sp
+    a = pn("Drumpf, Harry~and~Fellowes")
+    merged = " and ".join([a.merge_last_name_first, pn("and Smith").merge_last_name_first, "Jones, Bob"])
+    back = [pn(x) for x in sp(merged)]
+    return len(back) == 3 and back[0].first == ["Harry", "and", "Fellowes"] and back[1].first == ["and"] and back[1].last == ["Smith"]
+
+
 if __name__ == "__main__":
     bad = 0
     for name, f in sorted(((k, v) for k, v in globals().items() if k[0] == "d" and k[1:].isdigit()), key=lambda kv: int(kv[0][1:])):
